@@ -11,8 +11,11 @@ KINDS_ALL = ["iter", "agen", "aobj", "seq", "aobj_nc", "list"]
 KINDS_ASYNC = ["agen", "aobj"]
 FLAV = ["def", "async", "partial", "obj"]
 NO_ATHROW = {"chain"}   # class-based handles without athrow
-TOOL_NAMES = ["filter", "filterfalse", "enumerate", "takewhile", "dropwhile", "starmap", "accumulate", "batched",
-              "chain", "compress", "cycle", "islice", "pairwise", "zip", "map", "zip_longest", "all", "any"]
+ITER_TOOLS = ["filter", "filterfalse", "enumerate", "takewhile", "dropwhile", "starmap", "accumulate", "batched",
+              "chain", "compress", "cycle", "islice", "pairwise", "zip", "map", "zip_longest", "merge"]
+AGG_TOOLS = ["all", "any", "sum", "min", "max", "list", "tuple", "set", "dict", "sorted", "reduce", "nlargest", "nsmallest"]
+NO_MODEL = {"set", "dict"}   # outside the Lean value model (oracle only)
+TOOL_NAMES = ITER_TOOLS + AGG_TOOLS
 
 
 def observe(case):
@@ -20,6 +23,8 @@ def observe(case):
 
 
 def model_request(case):
+    if case["tool"] in NO_MODEL:
+        return None
     return tools.model_request(case)
 
 
@@ -95,10 +100,10 @@ def with_faults(case):
             yield c
 
 
-def random_cases(tier, rng, kinds, count, faults=False, cons_kinds=("exhaust", "close", "throw")):
+def random_cases(tier, rng, kinds, count, faults=False, cons_kinds=("exhaust", "close", "throw"), tools_subset=None):
     grid = tool_grid(tier)
     for _ in range(count):
-        tool = rng.choice(TOOL_NAMES)
+        tool = rng.choice(tools_subset or TOOL_NAMES)
         nsrc, plist, fns, style = grid[tool]
         params = rng.choice(plist)
         ns = nsrc or rng.randint(1, 4)
